@@ -105,7 +105,13 @@ def top : Reader TOp := do
   | "tsplitn" => do pure (.tsplitN (← nat) (← dimArg))
   | "tsplitl" => do pure (.tsplitL (← natList) (← dimArg))
   | "flip" => do pure (.flip (← intList))
-  | "roll" => do pure (.roll (← int) (← int))
+  | "roll" => do
+      let sh ← intList
+      let t ← tok
+      if t = "_" then pure (.roll sh none) else
+      match (commaList t).mapM String.toInt? with
+      | some l => pure (.roll sh (some l))
+      | none => throw s!"bad-op:roll:{t}"
   | "permute" => do pure (.permute (← intList))
   | "transpose" => do pure (.transpose (← int) (← int))
   | "expand" => do pure (.expand (← intList))
